@@ -71,6 +71,29 @@ class DropInterp(Interp):
         return st
 
 
+class MemCodeInterp(Interp):
+    """ts = id of a call that returned exactly CIF_MEMORY_ERROR (3) on this path."""
+
+    def __init__(self, prog, fn, may_fail, mem):
+        super().__init__(prog, fn)
+        self.may_fail = may_fail
+        self.mem = mem
+        self.sites = {}
+        keep = {p["name"] for p in fn.params} | {l["name"] for l in fn.locals}
+        self.tracked = {p for p in self.tracked if re.match(r"^\w+$", p) and p in keep}
+        self.cap = 4000
+
+    def initial_ts(self):
+        return None
+
+    def call(self, st, n, argvals):
+        if n.get("callee") in self.may_fail and st.ts is None:
+            self.sites[n["id"]] = n
+            return [(st, av_const(0)), (st.with_ts(n["id"]), av_const(self.mem)),
+                    (st, AV(1, None, frozenset([self.mem]))), (st, AV(None, -1))]
+        return [(st, None)]
+
+
 def run(prog, chk):
     chk.level = "other"
     chk.explanation = ("Structural necessary conditions of graceful failure under memory exhaustion, over every allocation site of "
@@ -226,3 +249,32 @@ def run(prog, chk):
                   "the owning object unchanged", primary=False, floor=3)
     if memrules.realloc_self_assign(prog, r7) < 3:
         raise Broken("fewer than 3 realloc sites found")
+
+    r8 = chk.rule("R8-memory-error-code-preserved", "when a callee returns CIF_MEMORY_ERROR the caller returns CIF_MEMORY_ERROR or "
+                  "CIF_ERROR - never CIF_OK or another constant code (the property names the two admissible codes)",
+                  primary=False, floor=15)
+    mem, gen = codes.get("CIF_MEMORY_ERROR"), codes.get("CIF_ERROR")
+    n8 = 0
+    for fn in prog.all_functions():
+        if fn.ret.strip() != "int" or not (prog.callees(fn) & may_fail):
+            continue
+        n8 += 1
+        it = MemCodeInterp(prog, fn, may_fail, mem).run()
+        if it.overflow:
+            r8.unproved(fn.key, "not analysed to a fixpoint")
+            continue
+        bad = {}
+        for st, av, node in it.exits:
+            if st.ts is not None and av is not None and av.is_const() and av.value() not in (mem, gen):
+                cn = it.sites[st.ts]
+                bad.setdefault((cn.get("callee"), av.value()), (st, node, cn))
+        for (callee, v), (st, node, cn) in sorted(bad.items(), key=str):
+            name = next((k for k, x in codes.items() if x == v), str(v))
+            r8.violation(fn.file, fn.name, cn.get("l"), "memory-error-becomes:%s:%s:%s" % (fn.name, callee, name),
+                         "when %s (L%s) returns CIF_MEMORY_ERROR, %s returns %s (%s): a failed allocation is reported under a code "
+                         "that is neither CIF_MEMORY_ERROR nor CIF_ERROR" % (callee, cn.get("l"), fn.name, name, v),
+                         path=["L%s" % x for x in st.trail_lines()][-20:])
+        if not bad:
+            r8.ok(fn.key, "%d may-fail call sites; CIF_MEMORY_ERROR is passed on (or becomes CIF_ERROR)" % len(it.sites))
+    if n8 < 15:
+        raise Broken("only %d functions with may-fail callees" % n8)
